@@ -139,6 +139,30 @@ fn refs_json(p: &Program) -> J {
     json!({"vars": v, "fns": f})
 }
 
+/// One compiled program executed against several separately built contexts, in order
+/// (`ctxs`: array of {vars, opts}); the program object is the same for all of them.
+fn op_multictx(case: &J) -> J {
+    let src = case["src"].as_str().unwrap_or("");
+    let p = match Program::compile(src) {
+        Ok(p) => p,
+        Err(e) => return json!({"compile_err": parse_errors_json(&e)}),
+    };
+    let mut runs = vec![];
+    if let Some(ctxs) = case["ctxs"].as_array() {
+        for c in ctxs {
+            match build_context(c) {
+                Ok(ctx) => runs.push(exec_once(&p, &ctx)),
+                Err(e) => return json!({"harness_err": e}),
+            }
+        }
+    }
+    let mut out = json!({"runs": runs});
+    if case["opts"]["refs"].as_bool().unwrap_or(false) {
+        out["refs"] = refs_json(&p);
+    }
+    out
+}
+
 fn op_exec(case: &J) -> J {
     let src = case["src"].as_str().unwrap_or("");
     let opts = &case["opts"];
@@ -446,6 +470,7 @@ pub fn dispatch(case: &J) -> J {
         "compile" => op_compile(case),
         "parse" => op_parse(case),
         "exec" => op_exec(case),
+        "multictx" => op_multictx(case),
         "valueop" => op_valueop(case),
         "json" => op_json(case),
         "to_value" => op_to_value(case),
